@@ -283,6 +283,15 @@ func TestVerifC16_RequestGrammar(t *testing.T) {
 		res := c16Serve(key, chunkBytes(t, raw))
 		complete := r.truncate < 0 || r.truncate >= fullLen
 		authorized := key == "" || r.keyMode == "exact" || r.keyMode == "padded" || r.keyMode == "upper-name"
+		if !complete && !authorized {
+			// a cut can turn a longer wrong key into the exact key: judge by the bytes actually sent
+			for _, line := range strings.Split(raw, "\r\n") {
+				name, val, ok := strings.Cut(line, ":")
+				if ok && strings.EqualFold(name, "x-api-key") && strings.TrimSpace(val) == key {
+					authorized = true
+				}
+			}
+		}
 		labels := []string{"method=" + r.method, "key=" + r.keyMode, "cl=" + r.clMode, fmt.Sprintf("complete=%v", complete), fmt.Sprintf("keyConfigured=%v", key != "")}
 		nt := (key != "" && len(raw) > 20) || len(r.body) > 0
 		vstat.Case("C16/grammar", key+"|"+raw, nt, labels...)
